@@ -1,1 +1,599 @@
-/-! C02 — property theorems (none yet). -/
+import Req.C02.RespSM
+import Req.C02.H1Body
+import Req.Lemmas.C02Reader
+import Req.Lemmas.C02Bufio
+import Req.Lemmas.C02H1Simple
+import Req.Lemmas.C02Resp
+import Req.Lemmas.C02H2
+import Req.Lemmas.C02Chunked
+import Req.Lemmas.C02H3
+import Req.Lemmas.C02Hex
+import Req.Lemmas.C02Trailer
+import Req.Lemmas.C02Cross
+/-!
+C02 — response fidelity: property theorems.
+
+Part A (`read_split_independent_*`): the HTTP/1.1 body readers, as incremental automata over
+a `bufio.Reader` fed by a connection that delivers the wire in ANY segmentation, hand the
+caller exactly the origin's body for EVERY sequence of caller read sizes.
+
+Part B (`observe_paths_agree` and its components): every way of observing a `req.Response`
+— auto-read cache (`ToBytes`/`Bytes`/`String`, any interleaving, any number of times),
+re-reading the restored `Body` with any read sizes, streaming without auto-read with any read
+sizes, streaming part and then `ToBytes`, `SetOutput`/`SetOutputFile` — shows the same byte
+string, namely the transport body, whatever segmentation the transport delivers it in.
+-/
+namespace Req.Props.C02
+open Req.Proto Req.C02
+
+/-! ## Part A — HTTP/1.1 body readers -/
+
+/-- **read_split_independent, declared length.** The origin wrote `body` (`n = |body| > 0`
+bytes, `Content-Length: n`) followed by anything (`rest`: the next response, or nothing).
+For every segmentation `segs` of that wire, every way the connection ends afterwards, every
+buffer size and every sequence `ks` of caller read sizes (zeros allowed): the bytes handed out
+are a prefix of `body` and the connection reader stands exactly behind them. -/
+theorem read_split_independent_length_prefix (body rest : Bytes) (hn : 0 < body.length)
+    (segs : List Bytes) (hsegs : segs.flatten = body ++ rest) (fin : NetEnd) (cap : Nat)
+    (ks : List Nat) :
+    let run := (H1Body.new (.length body.length) (Bufio.new cap ⟨segs, fin⟩)).runReads ks
+    (∃ t, body = outBytes run.1 ++ t) ∧
+    run.2.br.rem = (body ++ rest).drop (outBytes run.1).length := by
+  have hinv : LimInv (H1Body.new (.length body.length) (Bufio.new cap ⟨segs, fin⟩)) :=
+    ⟨body.length, rfl, hn, by simp [H1Body.new, Bufio.new_rem, hsegs], rfl, rfl, Bufio.new_wf _ _⟩
+  have hexp : limExp (H1Body.new (.length body.length) (Bufio.new cap ⟨segs, fin⟩)) = body := by
+    simp [limExp, H1Body.new, Bufio.new_rem, hsegs]
+  refine ⟨?_, ?_⟩
+  · have := runReads_prefix limited_refines ks _ hinv
+    rw [hexp] at this
+    exact this
+  · have := limited_run_rem ks _ hinv
+    simpa [H1Body.runReads, H1Body.new, Bufio.new_rem, hsegs] using this
+
+/-- **read_split_independent, declared length, complete read.** If moreover every read size
+is positive and the caller reads often enough (more reads than body bytes always suffices),
+the run ends with `io.EOF`, the bytes are EXACTLY `body`, and exactly `rest` is left on the
+connection for the next response. -/
+theorem read_split_independent_length (body rest : Bytes) (hn : 0 < body.length)
+    (segs : List Bytes) (hsegs : segs.flatten = body ++ rest) (fin : NetEnd) (cap : Nat)
+    (ks : List Nat) (hpos : ∀ k ∈ ks, 0 < k) (hlen : body.length < ks.length) :
+    let run := (H1Body.new (.length body.length) (Bufio.new cap ⟨segs, fin⟩)).runReads ks
+    outBytes run.1 = body ∧ lastErr run.1 = some .eof ∧ run.2.br.rem = rest := by
+  have hinv : LimInv (H1Body.new (.length body.length) (Bufio.new cap ⟨segs, fin⟩)) :=
+    ⟨body.length, rfl, hn, by simp [H1Body.new, Bufio.new_rem, hsegs], rfl, rfl, Bufio.new_wf _ _⟩
+  have hexp : limExp (H1Body.new (.length body.length) (Bufio.new cap ⟨segs, fin⟩)) = body := by
+    simp [limExp, H1Body.new, Bufio.new_rem, hsegs]
+  obtain ⟨e, he⟩ := runReads_terminates limited_refines limited_progress ks _ hinv hpos (by rw [hexp]; exact hlen)
+  -- the terminal error is EOF: under the invariant nothing else is ever reported
+  have heof : e = .eof := by
+    clear hexp hlen hpos
+    generalize H1Body.new (.length body.length) (Bufio.new cap ⟨segs, fin⟩) = bd at hinv he
+    induction ks generalizing bd with
+    | nil => simp [runReads, lastErr] at he
+    | cons k ks ih =>
+      unfold runReads at he
+      rcases hr : H1Body.read bd k with ⟨⟨d, e'⟩, bd'⟩
+      rw [hr] at he
+      cases e' with
+      | some e' =>
+        simp only [lastErr_single, Option.some.injEq] at he
+        subst he
+        exact limited_only_eof bd k hinv d _ bd' hr
+      | none =>
+        simp only at he
+        have hi := (limited_refines.step_ok bd k d bd' hinv hr).1
+        have hne : (runReads H1Body.read bd' ks).1 ≠ [] := by
+          intro h0; rw [h0] at he; simp [lastErr] at he
+        rw [lastErr_cons_ne _ _ hne] at he
+        exact ih bd' hi he
+  subst heof
+  have hout := runReads_eof limited_refines ks _ hinv .eof he rfl
+  rw [hexp] at hout
+  refine ⟨hout, he, ?_⟩
+  have := limited_run_rem ks _ hinv
+  simp only [H1Body.runReads]
+  rw [this, hout]
+  simp [H1Body.new, Bufio.new_rem, hsegs]
+
+/-- **read_split_independent, body ended by connection close.** The origin wrote `body` and
+closed the connection. For every segmentation and every read-size sequence the caller gets a
+prefix of `body`; a run that ends with `io.EOF` delivered exactly `body`; and with positive
+read sizes and enough reads it does end, with `io.EOF`. -/
+theorem read_split_independent_close (body : Bytes) (segs : List Bytes) (hsegs : segs.flatten = body)
+    (cap : Nat) (ks : List Nat) :
+    let run := (H1Body.new .close (Bufio.new cap ⟨segs, .eof⟩)).runReads ks
+    (∃ t, body = outBytes run.1 ++ t) ∧
+    (lastErr run.1 = some .eof → outBytes run.1 = body) ∧
+    ((∀ k ∈ ks, 0 < k) → body.length < ks.length → ∃ e, lastErr run.1 = some e) := by
+  have hinv : CloseInv (H1Body.new .close (Bufio.new cap ⟨segs, .eof⟩)) :=
+    ⟨rfl, rfl, rfl, Bufio.new_wf _ _, rfl⟩
+  have hexp : closeExp (H1Body.new .close (Bufio.new cap ⟨segs, .eof⟩)) = body := by
+    simp [closeExp, H1Body.new, Bufio.new_rem, hsegs]
+  refine ⟨?_, ?_, ?_⟩
+  · have := runReads_prefix close_refines ks _ hinv
+    rw [hexp] at this; exact this
+  · intro he
+    have := runReads_eof close_refines ks _ hinv .eof he rfl
+    rw [hexp] at this; exact this
+  · intro hpos hlen
+    exact runReads_terminates close_refines close_progress ks _ hinv hpos (by rw [hexp]; exact hlen)
+
+/-- **read_split_independent, chunked.** The origin wrote the chunks `cs` (each with a
+size line that the reader's own line parser maps to the chunk's length: any hex case, leading
+zeros, extensions, trailing blanks), the last-chunk line, a trailer section and whatever
+follows (`tail = <trailer section> ++ rest`, with `readTrailer` yielding `t` on it — see
+`trailerOK_empty` for the section without fields). For EVERY segmentation `segs` of that wire,
+every way the connection ends afterwards and EVERY sequence `ks` of caller read sizes:
+
+* the bytes handed out are a prefix of the concatenated chunk data;
+* a run that ends with an error ends with `io.EOF`, and then the bytes are EXACTLY the chunk
+  data, `Response.Trailer` got `t`, and exactly `rest` is left on the connection;
+* with positive read sizes and more reads than data bytes the run does end. -/
+theorem read_split_independent_chunked (cap : Nat) (cs : List WChunk) (hcs : ∀ c ∈ cs, c.OK cap)
+    (last : Bytes) (hl : LastOK cap last) (tail rest : Bytes) (t : Option Trailer)
+    (ht : TrailerOK cap tail rest t)
+    (segs : List Bytes) (hsegs : segs.flatten = wireFrom cs last tail) (fin : NetEnd) (ks : List Nat) :
+    let run := (H1Body.new .chunked (Bufio.new cap ⟨segs, fin⟩)).runReads ks
+    (∃ u, dataOf cs = outBytes run.1 ++ u) ∧
+    (∀ e, lastErr run.1 = some e →
+      e = .eof ∧ outBytes run.1 = dataOf cs ∧ run.2.trailer = t ∧ run.2.br.rem = rest) ∧
+    ((∀ k ∈ ks, 0 < k) → (dataOf cs).length < ks.length → ∃ e, lastErr run.1 = some e) := by
+  have hrel : ChunkRel cap last tail (H1Body.new .chunked (Bufio.new cap ⟨segs, fin⟩)) (dataOf cs) := by
+    refine ⟨Chunked.init, rfl, rfl, ?_, rfl, rfl, rfl, Bufio.new_wf _ _, Bufio.new_fits _ _, rfl⟩
+    simp only [H1Body.new, Bufio.new_rem, hsegs]
+    exact CPos.header cs hcs
+  have R := chunked_refines cap last tail rest t hl ht
+  refine ⟨runReadsR_prefix R ks _ _ hrel, ?_, ?_⟩
+  · intro e he
+    have hfin := runReadsR_final R (fun e bd' => e = .eof ∧ bd'.trailer = t ∧ bd'.br.rem = rest)
+      (fun bd E k d e bd' hr h => by
+        obtain ⟨h1, _, h3, h4⟩ := (chunked_read cap last tail rest t hl ht bd E k hr d (some e) bd' h).2 e rfl
+        exact ⟨h1, h3, h4⟩) ks _ _ hrel e he
+    obtain ⟨rfl, h2, h3⟩ := hfin
+    exact ⟨rfl, runReadsR_eof R ks _ _ hrel .eof he rfl, h2, h3⟩
+  · intro hpos hlen
+    exact runReadsR_terminates_bytes R
+      (fun bd E k d bd' hr hk h => by
+        obtain ⟨_, _, _, hp⟩ := (chunked_read cap last tail rest t hl ht bd E k hr d none bd' h).1 rfl
+        exact hp hk) ks _ _ hrel hpos hlen
+
+/-- The same without trailer fields, fully explicit: after the last-chunk line comes CRLF and
+then `rest`. (Buffer size ≥ 2: Go's `bufio` minimum is 16.) -/
+theorem read_split_independent_chunked_no_trailer (cap : Nat) (hcap : 2 ≤ cap) (cs : List WChunk)
+    (hcs : ∀ c ∈ cs, c.OK cap) (last : Bytes) (hl : LastOK cap last) (rest : Bytes)
+    (segs : List Bytes) (hsegs : segs.flatten = wireFrom cs last (13 :: 10 :: rest)) (fin : NetEnd)
+    (ks : List Nat) (hpos : ∀ k ∈ ks, 0 < k) (hlen : (dataOf cs).length < ks.length) :
+    let run := (H1Body.new .chunked (Bufio.new cap ⟨segs, fin⟩)).runReads ks
+    outBytes run.1 = dataOf cs ∧ lastErr run.1 = some .eof ∧ run.2.trailer = none ∧ run.2.br.rem = rest := by
+  have h := read_split_independent_chunked cap cs hcs last hl (13 :: 10 :: rest) rest none
+    (trailerOK_empty cap hcap rest) segs hsegs fin ks
+  obtain ⟨_, h2, h3⟩ := h
+  obtain ⟨e, he⟩ := h3 hpos hlen
+  obtain ⟨rfl, h4, h5, h6⟩ := h2 e he
+  exact ⟨h4, he, h5, h6⟩
+
+/-- **read_split_independent, chunked with trailer fields.** As above with a trailer section
+of fields `fs` (each `name ":" OWS value OWS CRLF`, any optional whitespace, token names of
+any case) that fits the read buffer: a complete read delivers exactly the chunk data and
+`Response.Trailer` receives exactly those fields — canonical names, values without the
+optional whitespace, wire order — and `rest` is left on the connection. -/
+theorem read_split_independent_chunked_trailers (cap : Nat) (cs : List WChunk) (hcs : ∀ c ∈ cs, c.OK cap)
+    (last : Bytes) (hl : LastOK cap last) (fs : List WField) (hfs : ∀ f ∈ fs, f.OK) (hne : fs ≠ [])
+    (hfit : (blockWire fs).length ≤ cap) (rest : Bytes)
+    (segs : List Bytes) (hsegs : segs.flatten = wireFrom cs last (blockWire fs ++ rest)) (fin : NetEnd)
+    (ks : List Nat) (hpos : ∀ k ∈ ks, 0 < k) (hlen : (dataOf cs).length < ks.length) :
+    let run := (H1Body.new .chunked (Bufio.new cap ⟨segs, fin⟩)).runReads ks
+    outBytes run.1 = dataOf cs ∧ lastErr run.1 = some .eof ∧ run.2.trailer = some (fieldsOf fs) ∧
+      run.2.br.rem = rest := by
+  have h := read_split_independent_chunked cap cs hcs last hl (blockWire fs ++ rest) rest (some (fieldsOf fs))
+    (trailerOK_fields cap fs hfs hne hfit rest) segs hsegs fin ks
+  obtain ⟨_, h2, h3⟩ := h
+  obtain ⟨e, he⟩ := h3 hpos hlen
+  obtain ⟨rfl, h4, h5, h6⟩ := h2 e he
+  exact ⟨h4, he, h5, h6⟩
+
+/-- **Field block round trip** (response head fields and trailer sections share the reader):
+what the origin writes for the fields `fs`, followed by anything, is read back as exactly
+`fs` — canonical names, values without optional whitespace, wire order — consuming exactly
+the block. -/
+theorem field_block_roundtrip (fs : List WField) (hfs : ∀ f ∈ fs, f.OK) (R : Bytes) :
+    parseFieldBlock ((blockWire fs ++ R).length + 1) (blockWire fs ++ R) =
+      some (fieldsOf fs, (blockWire fs).length) := by
+  apply parseFieldBlock_block fs hfs R
+  have : fs.length ≤ (blockWire fs).length := by
+    clear hfs
+    induction fs with
+    | nil => simp
+    | cons f fs ih =>
+      rw [blockWire_cons]
+      simp only [List.length_cons, List.length_append]
+      omega
+  simp only [List.length_append]
+  omega
+
+/-- **read_split_independent, chunked, Go's own encoder.** The origin wrote the non-empty
+chunks `ds` exactly as Go's chunked writer does (`%x` CRLF, data, CRLF … `0` CRLF), then an
+empty trailer section, then `rest`. For every segmentation, every connection end, every
+buffer size ≥ 18 and every sequence of positive read sizes longer than the body: the caller
+gets EXACTLY `ds.flatten`, then `io.EOF`, no trailer, and exactly `rest` is left. -/
+theorem read_split_independent_chunked_canonical (cap : Nat) (hcap : 18 ≤ cap) (ds : List Bytes)
+    (hds : ∀ d ∈ ds, d ≠ [] ∧ d.length < 16 ^ 16) (rest : Bytes)
+    (segs : List Bytes) (hsegs : segs.flatten = canonWire ds (13 :: 10 :: rest)) (fin : NetEnd)
+    (ks : List Nat) (hpos : ∀ k ∈ ks, 0 < k) (hlen : ds.flatten.length < ks.length) :
+    let run := (H1Body.new .chunked (Bufio.new cap ⟨segs, fin⟩)).runReads ks
+    outBytes run.1 = ds.flatten ∧ lastErr run.1 = some .eof ∧ run.2.trailer = none ∧ run.2.br.rem = rest := by
+  have h := read_split_independent_chunked_no_trailer cap (by omega) (ds.map canonChunk)
+    (canon_ok cap hcap ds hds) [48, 13] (lastOK_canonical cap (by omega)) rest segs
+    (by rw [hsegs, canonWire_eq]) fin ks hpos (by rw [dataOf_canon]; exact hlen)
+  rw [dataOf_canon] at h
+  exact h
+
+/-! Non-vacuity: `5\r\nhello\r\n3;x\r\nabc\r\n0\r\n\r\nN` cut into 7 segments, read with 4,4,4. -/
+example :
+    ((H1Body.new .chunked (Bufio.new 4096
+        ⟨[[53, 13], [10, 104, 101], [108, 108, 111, 13, 10, 51], [59, 120, 13, 10, 97], [98, 99, 13],
+          [10, 48, 13, 10, 13], [10, 78]], .eof⟩)).runReads [4, 4, 4, 4]).1 =
+      [([104, 101, 108, 108], none), ([111], none), ([97, 98, 99], none), ([], some .eof)] := by decide
+
+example : WChunk.OK 4096 ⟨[51, 59, 120, 13], [97, 98, 99]⟩ := by
+  refine ⟨by decide, by decide, by rfl, by decide, by decide⟩
+
+/-! Non-vacuity: chunk "hi", trailer `x-t:  v ` + `X-T: w`, then "N"; segments cut everywhere. -/
+example :
+    let run := (H1Body.new .chunked (Bufio.new 4096
+        ⟨[[50, 13, 10, 104], [105, 13, 10, 48, 13, 10, 120, 45], [116, 58, 32, 32, 118, 32, 13],
+          [10, 88, 45, 84, 58, 32, 119, 13, 10, 13], [10, 78]], .eof⟩)).runReads [9, 9]
+    run.1 = [([104, 105], some .eof)] ∧
+    run.2.trailer = some [([88, 45, 84], [118]), ([88, 45, 84], [119])] ∧ run.2.br.rem = [78] := by
+  decide
+
+example : WField.OK ⟨[120, 45, 116], [32, 32], [118], [32]⟩ := by
+  refine ⟨by decide, by decide, ⟨by decide, ?_, ?_⟩, by decide, by decide⟩
+  · intro a rest h; simp at h; rw [← h.1]; decide
+  · intro a pre h
+    have : pre = [] ∧ a = 118 := by
+      cases pre with
+      | nil => simp at h; exact ⟨rfl, h.symm⟩
+      | cons p ps => cases ps <;> simp at h
+    rw [this.2]; decide
+
+example : LastOK 4096 [48, 13] := by
+  refine ⟨by decide, by rfl, by decide, by decide⟩
+
+/-! Non-vacuity: a 5-byte body + the start of the next response, delivered in 3 segments that
+cut through the body, read with sizes 2,1,1,4,9. -/
+example :
+    ((H1Body.new (.length 5) (Bufio.new 4096 ⟨[[104, 101], [108], [108, 111, 72, 84]], .eof⟩)).runReads
+        [2, 1, 1, 4, 9]).1 =
+      [([104, 101], none), ([108], none), ([108], none), ([111], some .eof)] := by decide
+
+/-! ## Part B — the caller-side `Response` machine -/
+
+theorem restored_flatten (B : Bytes) : (Body.restored B).chunks.flatten = B := by
+  unfold Body.restored
+  cases B <;> simp
+
+/-- A config in which `Client.roundTrip` auto-reads. -/
+def AutoCfg (cfg : Cfg) : Prop := cfg.clientDisable = false ∧ cfg.reqDisable = false ∧ cfg.save = false
+
+/-- **Auto-read, any interleaving.** Whatever segmentation `cks` the transport delivers the
+body in, after auto-read EVERY sequence of observation ops — `ToBytes`, `ToString`, `Bytes`,
+`String`, `Body.Read(n)`, `io.ReadAll(Body)`, `Body.Close`, in any order, any number of times
+— shows the full body `cks.flatten` in every cache-reading op, and what is streamed from the
+restored `Body` in between is a prefix of the same bytes. -/
+theorem auto_read_views (cfg : Cfg) (hcfg : AutoCfg cfg) (st : Nat) (hst : 199 < st)
+    (cks : List Bytes) (ops : List Op) :
+    let r := afterRoundTrip cfg st (Body.transport cks .eof)
+    r.err = none ∧ r.out = none ∧
+    (∀ x ∈ (r.run ops).1, okAuto cks.flatten x) ∧
+    ∃ t, cks.flatten = streamedOf (r.run ops).1 ++ t := by
+  obtain ⟨h1, h2, h3⟩ := hcfg
+  simp only [afterRoundTrip_auto cfg st cks h1 h2 h3 hst]
+  have hinv : AutoInv cks.flatten
+      { status := st, err := none, cache := some cks.flatten,
+        body := some (Body.restored cks.flatten), out := none } [] := by
+    refine ⟨rfl, rfl, Body.restored cks.flatten, rfl, rfl, rfl, ?_⟩
+    simp only [List.nil_append]
+    exact restored_flatten _
+  obtain ⟨hall, t, ht⟩ := auto_run cks.flatten ops _ [] hinv
+  exact ⟨by trivial, by trivial, hall, t, by simpa using ht⟩
+
+/-- **Re-read after auto-read, any read sizes.** Streaming the restored `Body` with any
+sequence of read sizes yields a prefix of the body; ending with `io.EOF` means exactly the
+body; positive sizes and enough reads do end, and with `io.EOF`. -/
+theorem reread_exact (B : Bytes) (ks : List Nat) :
+    let rs := (runReads Body.readO (Body.restored B) ks).1
+    (∃ t, B = outBytes rs ++ t) ∧ (lastErr rs = some .eof → outBytes rs = B) ∧
+    ((∀ k ∈ ks, 0 < k) → B.length < ks.length → ∃ e, lastErr rs = some e) := by
+  have hinv : BodyInvNE (Body.restored B) := by
+    refine ⟨rfl, ?_⟩
+    intro c hc
+    simp only [Body.restored] at hc
+    split at hc
+    · simp at hc
+    · simp only [List.mem_singleton] at hc
+      subst hc
+      intro h0; simp_all
+  have hexp : bodyExp (Body.restored B) = B := restored_flatten B
+  refine ⟨?_, ?_, ?_⟩
+  · have := runReads_prefix body_refines_ne ks _ hinv
+    rw [hexp] at this; exact this
+  · intro he
+    have := runReads_eof body_refines_ne ks _ hinv .eof he rfl
+    rw [hexp] at this; exact this
+  · intro hpos hlen
+    exact runReads_terminates body_refines_ne body_progress ks _ hinv hpos (by rw [hexp]; exact hlen)
+
+/-- **SetOutput / SetOutputFile.** Whatever the segmentation, the other switches (including a
+result object, which makes `parseResponseBody` read the body first so that `handleDownload`
+copies the cached bytes) and the status: exactly the body is written to the writer / file and
+no error is recorded. -/
+theorem save_output_exact (cfg : Cfg) (hs : cfg.save = true) (st : Nat) (cks : List Bytes) :
+    let r := afterRoundTrip cfg st (Body.transport cks .eof)
+    r.out = some cks.flatten ∧ r.err = none := by
+  exact afterRoundTrip_save cfg st cks hs
+
+/-- A config / status for which `Client.roundTrip` leaves the transport body to the caller:
+not saved, auto-read off (or an informational status), and no result object that would make
+`parseResponseBody` read the body. -/
+def StreamCfg (cfg : Cfg) (st : Nat) : Prop :=
+  cfg.save = false ∧ (cfg.clientDisable = true ∨ cfg.reqDisable = true ∨ st ≤ 199) ∧
+  ¬ (cfg.result = true ∧ 199 < st ∧ st < 300 ∧ st ≠ 204)
+
+/-- **Streaming without auto-read, any read sizes, then optionally `ToBytes`.** The caller
+gets the live transport body. For every segmentation and every read-size sequence: the
+streamed bytes are a prefix of the body; ending with `io.EOF` means exactly the body; and if
+the caller stops streaming at any point (no error yet) and calls `ToBytes`, the streamed
+bytes followed by what `ToBytes` returns are exactly the body. -/
+theorem stream_exact (cfg : Cfg) (st : Nat) (hcfg : StreamCfg cfg st) (cks : List Bytes) (ks : List Nat) :
+    let r := afterRoundTrip cfg st (Body.transport cks .eof)
+    r.cache = none ∧ r.err = none ∧ r.body = some (Body.transport cks .eof) ∧
+    (let run := runReads Body.readO (Body.transport cks .eof) ks
+     (∃ t, cks.flatten = outBytes run.1 ++ t) ∧
+     (lastErr run.1 = some .eof → outBytes run.1 = cks.flatten) ∧
+     (lastErr run.1 = none →
+        outBytes run.1 ++ (({ r with body := some run.2 } : Resp).toBytes).1.1 = cks.flatten ∧
+        (({ r with body := some run.2 } : Resp).toBytes).1.2 = .ok)) := by
+  obtain ⟨hs, hd, hres⟩ := hcfg
+  simp only [afterRoundTrip_stream cfg st cks .eof hs hd hres]
+  refine ⟨by trivial, by trivial, by trivial, ?_, ?_, ?_⟩
+  · exact runReads_prefix body_refines ks _ (rfl : BodyInv (Body.transport cks .eof))
+  · intro he
+    exact runReads_eof body_refines ks _ (rfl : BodyInv (Body.transport cks .eof)) .eof he rfl
+  · intro hok
+    obtain ⟨hinv', hsplit⟩ := runReads_ok_split body_refines ks _ (rfl : BodyInv (Body.transport cks .eof)) hok
+    -- the stream's end marker is untouched by reads
+    have hfin : ∀ (ks : List Nat) (b : Body), b.closed = false →
+        (runReads Body.readO b ks).2.fin = b.fin := by
+      intro ks
+      induction ks with
+      | nil => intro b _; rfl
+      | cons k ks ih =>
+        intro b hb
+        unfold runReads
+        rcases hr : b.readO k with ⟨⟨d, e⟩, b'⟩
+        obtain ⟨_, hc', hf', _⟩ := Body.readO_spec b k hb d e b' hr
+        cases e with
+        | none => simp only; rw [ih b' hc', hf']
+        | some e => exact hf'
+    have hf := hfin ks (Body.transport cks .eof) rfl
+    rw [toBytes_rest st _ hinv' (by rw [hf]; rfl)]
+    exact ⟨hsplit.symm, rfl⟩
+
+/-- **observe_paths_agree.** One transport body `B`, delivered to four different requests in
+four arbitrary segmentations: (1) auto-read then any interleaving of cache ops, (2) re-read
+of the restored `Body` to EOF with any read sizes, (3) `SetOutput`/`SetOutputFile`,
+(4) streaming without auto-read to EOF with any read sizes. All four observe exactly `B`. -/
+theorem observe_paths_agree (B : Bytes)
+    (cks₁ cks₃ cks₄ : List Bytes) (h₁ : cks₁.flatten = B) (h₃ : cks₃.flatten = B) (h₄ : cks₄.flatten = B)
+    (cfgA cfgS cfgD : Cfg) (stA stS stD : Nat)
+    (hA : AutoCfg cfgA) (hstA : 199 < stA) (hS : cfgS.save = true) (hD : StreamCfg cfgD stD)
+    (ops : List Op) (ks₂ ks₄ : List Nat)
+    (he₂ : lastErr (runReads Body.readO (Body.restored B) ks₂).1 = some .eof)
+    (he₄ : lastErr (runReads Body.readO (Body.transport cks₄ .eof) ks₄).1 = some .eof) :
+    (∀ x ∈ ((afterRoundTrip cfgA stA (Body.transport cks₁ .eof)).run ops).1, okAuto B x) ∧
+    outBytes (runReads Body.readO (Body.restored B) ks₂).1 = B ∧
+    (afterRoundTrip cfgS stS (Body.transport cks₃ .eof)).out = some B ∧
+    outBytes (runReads Body.readO (Body.transport cks₄ .eof) ks₄).1 = B := by
+  refine ⟨?_, ?_, ?_, ?_⟩
+  · have := (auto_read_views cfgA hA stA hstA cks₁ ops).2.2.1
+    rw [h₁] at this; exact this
+  · exact (reread_exact B ks₂).2.1 he₂
+  · have := (save_output_exact cfgS hS stS cks₃).1
+    rw [h₃] at this; exact this
+  · have := (stream_exact cfgD stD hD cks₄ ks₄).2.2.2.2.1 he₄
+    rw [h₄] at this; exact this
+
+/-! Non-vacuity: body "hello" delivered as "he","","llo"; auto-read, then Bytes, Read(2),
+ToBytes, Read(9), Read(1): the cache ops show "hello", the reads stream "he","llo", EOF. -/
+example :
+    ((afterRoundTrip ⟨false, false, false, false⟩ 200 (Body.transport [[104, 101], [], [108, 108, 111]] .eof)).run
+        [.bytes, .read 2, .toBytes, .read 9, .read 1]).1 =
+      [(.bytes, .cached (some [104, 101, 108, 108, 111])),
+       (.read 2, .data [104, 101] .ok),
+       (.toBytes, .data [104, 101, 108, 108, 111] .ok),
+       (.read 9, .data [108, 108, 111] .ok),
+       (.read 1, .data [] .eof)] := by decide
+
+/-! Non-vacuity of the streaming hypotheses: DisableAutoReadResponse, reads 1,1 then ToBytes. -/
+example :
+    let r := afterRoundTrip ⟨false, true, false, false⟩ 200 (Body.transport [[104, 101], [108, 108, 111]] .eof)
+    (r.run [.read 1, .read 1, .toBytes, .bytes]).1 =
+      [(.read 1, .data [104] .ok), (.read 1, .data [101] .ok),
+       (.toBytes, .data [108, 108, 111] .ok), (.bytes, .cached (some [108, 108, 111]))] := by decide
+
+/-! ## Part C — HTTP/2 receive path -/
+
+/-- **stream_body_exact (HTTP/2).** A conformant frame sequence `m` (up to five interim 1xx
+HEADERS, the final HEADERS with status `code`, DATA frames — padded or not, empty or not —
+and END_STREAM on the last DATA or on a trailer HEADERS; a `Content-Length`, if present, equal
+to the total payload length). For EVERY interleaving `ops` of the read loop delivering a
+prefix of these frames with the caller calling `Read` with any sizes at any moments:
+
+* the bytes handed out are a prefix of the concatenated DATA payloads,
+* no read ever reports anything but data or `io.EOF`,
+* a read that reports `io.EOF` means the caller got EXACTLY the payload concatenation and
+  `Response.Trailer` holds the trailer fields,
+* once the head has been delivered the response carries the status and every regular field
+  under its canonical name, in wire order. -/
+theorem stream_body_exact_h2 (m : H2Msg) (code : Nat) (cl : Option Nat) (hc : m.Conformant code cl)
+    (ops : List H2Op) (rest : List H2Ev) (hev : m.events = evsOf ops ++ rest) :
+    let run := (H2Stream.init false).runOps ops
+    (∃ t, m.body = readsOut run.1 ++ t) ∧
+    (∀ o ∈ run.1, ObsOK o) ∧
+    (SawEOF run.1 → readsOut run.1 = m.body ∧ run.2.resTrailer = lastTrailers m.last) ∧
+    (rest.length ≤ m.datas.length + 1 →
+      ∃ res, run.2.res = some res ∧ res.status = code ∧ res.fields = h2Fields m.head) := by
+  have h0 : Ph m code cl (H2Stream.init false) (evsOf ops ++ rest) [] false := by
+    rw [← hev]
+    exact Ph.pre 0 m.interims (by simpa using hc.interims_le) hc.interims_ok
+  obtain ⟨b', hph, hobs, _, hsaw⟩ := Ph.run hc ops _ rest [] false h0
+  simp only [List.nil_append] at hph
+  refine ⟨hph.prefix_body, hobs, ?_, ?_⟩
+  · intro hs
+    have hb := hsaw hs
+    subst hb
+    exact hph.seen
+  · intro hrest
+    generalize ((H2Stream.init false).runOps ops).2 = s2 at hph
+    generalize readsOut ((H2Stream.init false).runOps ops).1 = c2 at hph
+    cases hph with
+    | pre j ints hj hok =>
+      simp [H2Msg.tailEvents] at hrest
+      omega
+    | mid j arrived consumed ds hpre hbody => exact ⟨_, rfl, rfl, rfl⟩
+    | fin j consumed eofSeen hpre hdone => exact ⟨_, rfl, rfl, rfl⟩
+
+/-- **stream_body_exact (HTTP/2), completion.** After all frames of a conformant response
+have arrived (in any interleaving with earlier reads), enough non-empty reads — one more than
+the bytes still unread always suffices — end with `io.EOF`, hence (previous theorem) with
+exactly the body. -/
+theorem stream_body_complete_h2 (m : H2Msg) (code : Nat) (cl : Option Nat) (hc : m.Conformant code cl)
+    (ops : List H2Op) (hev : m.events = evsOf ops) (ks : List Nat) (hpos : ∀ k ∈ ks, 0 < k)
+    (hlen : m.body.length < ks.length) :
+    let run := (H2Stream.init false).runOps (ops ++ ks.map H2Op.read)
+    SawEOF run.1 ∧ readsOut run.1 = m.body ∧ run.2.resTrailer = lastTrailers m.last := by
+  have hevs : evsOf (ops ++ ks.map H2Op.read) = evsOf ops := by
+    rw [evsOf_append, evsOf_reads, List.append_nil]
+  -- split the run at the point where all frames have arrived
+  have hsplit : ∀ (ops₁ ops₂ : List H2Op) (s : H2Stream),
+      (s.runOps (ops₁ ++ ops₂)).1 = (s.runOps ops₁).1 ++ ((s.runOps ops₁).2.runOps ops₂).1 := by
+    intro ops₁ ops₂
+    induction ops₁ with
+    | nil => intro s; simp [H2Stream.runOps]
+    | cons op ops₁ ih =>
+      intro s
+      cases op with
+      | ev e => simpa [H2Stream.runOps] using ih (s.event e)
+      | read k =>
+        simp only [List.cons_append, H2Stream.runOps]
+        cases hr : s.read k with
+        | none => simp [ih s]
+        | some x => simp [ih x.2]
+  have h0 : Ph m code cl (H2Stream.init false) (evsOf ops ++ []) [] false := by
+    rw [List.append_nil, ← hev]
+    exact Ph.pre 0 m.interims (by simpa using hc.interims_le) hc.interims_ok
+  obtain ⟨b', hph, _, _, _⟩ := Ph.run hc ops _ [] [] false h0
+  simp only [List.nil_append] at hph
+  have hdr := Ph.drain hc ks hpos _ _ b' hph (by omega)
+  have hsaw : SawEOF ((H2Stream.init false).runOps (ops ++ ks.map H2Op.read)).1 := by
+    obtain ⟨d, hd⟩ := hdr
+    exact ⟨d, by rw [hsplit]; simp [hd]⟩
+  have := (stream_body_exact_h2 m code cl hc (ops ++ ks.map H2Op.read) [] (by rw [hevs, List.append_nil]; exact hev)).2.2.1 hsaw
+  exact ⟨hsaw, this⟩
+
+/-! Non-vacuity: 103, then 200 with content-length 5, DATA "he" (padded), a read, DATA "llo"
+with END_STREAM, reads of 2,2,9,1 bytes: a blocked read in between, then "he","l","lo", EOF. -/
+example :
+    ((H2Stream.init false).runOps
+      [.read 4,
+       .ev (.headers [([58, 115, 116, 97, 116, 117, 115], [49, 48, 51])] false),
+       .ev (.headers [([58, 115, 116, 97, 116, 117, 115], [50, 48, 48]),
+                      ([99, 111, 110, 116, 101, 110, 116, 45, 108, 101, 110, 103, 116, 104], [53])] false),
+       .ev (.data [104, 101] true false), .read 2, .read 2,
+       .ev (.data [108, 108, 111] false true), .read 1, .read 9, .read 1]).1 =
+      [none, some ([104, 101], none), none, some ([108], none), some ([108, 111], none),
+       some ([], some .eof)] := by decide
+
+/-! ## Part D — HTTP/3 receive path -/
+
+/-- **stream_body_exact (HTTP/3).** After the response head, the origin wrote the frames `frs`
+(DATA frames — also empty ones — and frames of types the parser skips: unknown, GREASE,
+CANCEL_PUSH …; every frame header any valid varint encoding of type and payload length),
+optionally a trailer HEADERS frame `tr` (QPACK-decoded field list as side input, accepted by
+`parseTrailers`), then FIN. A `Content-Length`, if declared (`cl`), equals the total DATA
+payload length. For EVERY segmentation `segs` of that byte stream into QUIC stream reads and
+EVERY sequence `ks` of caller read sizes:
+
+* the bytes handed out are a prefix of the concatenated DATA payloads;
+* a run that ends with an error ends with `io.EOF`; then the bytes are EXACTLY the payload
+  concatenation and `Response.Trailer` holds the trailer fields;
+* with positive read sizes and more reads than bytes on the stream the run does end. -/
+theorem stream_body_exact_h3 (frs : List WFrame) (hfrs : ∀ f ∈ frs, BodyFrameOK f)
+    (tr : Option WTrailer) (maxH : Nat) (htr : ∀ t, tr = some t → t.OK maxH)
+    (cl : Option Nat) (hcl : cl = none ∨ cl = some (h3DataOf frs).length)
+    (segs : List Bytes) (hsegs : segs.flatten = framesWire frs ++ trailerWire tr) (ks : List Nat) :
+    let run := runReads H3Body.read (h3Start segs tr maxH cl) ks
+    (∃ u, h3DataOf frs = outBytes run.1 ++ u) ∧
+    (∀ e, lastErr run.1 = some e →
+      e = .eof ∧ outBytes run.1 = h3DataOf frs ∧ ∀ t, tr = some t → run.2.str.trailer = some t.parsed) ∧
+    ((∀ k ∈ ks, 0 < k) → segs.flatten.length < ks.length → ∃ e, lastErr run.1 = some e) := by
+  have hpos := h3Start_pos segs frs hfrs tr maxH cl hcl hsegs
+  have R := h3_refines tr maxH htr
+  refine ⟨runReadsR_prefix R ks _ _ hpos, ?_, ?_⟩
+  · intro e he
+    have hfin := runReadsR_final R (fun e b' => e = .eof ∧ ∀ t, tr = some t → b'.str.trailer = some t.parsed)
+      (fun b E k d e b' hr h => by
+        obtain ⟨h1, _, _, h4⟩ := (h3_read tr maxH htr b E k hr d (some e) b' h).2 e rfl
+        exact ⟨h1, h4⟩) ks _ _ hpos e he
+    obtain ⟨rfl, h2⟩ := hfin
+    exact ⟨rfl, runReadsR_eof R ks _ _ hpos .eof he rfl, h2⟩
+  · intro hp hlen
+    refine runReadsR_terminates R _ (h3_progress tr maxH htr) ks _ _ hpos hp ?_
+    rcases hcl with rfl | rfl <;> simpa [h3Start] using hlen
+
+/-! Non-vacuity: DATA "he" | GREASE frame (type 0x21, 1 byte) | empty DATA | DATA "llo",
+Content-Length 5, the stream cut into 5 pieces, reads of 4 bytes. -/
+example :
+    (runReads H3Body.read
+        (h3Start [[0, 2, 104], [101, 33, 1], [9, 0, 0, 0], [3, 108, 108], [111]] none 1000 (some 5))
+        [4, 4, 4, 4, 4, 4, 4]).1 =
+      [([104], none), ([101], none), ([], none), ([108, 108], none), ([111], none), ([], some .eof)] := by
+  decide
+
+example : BodyFrameOK ⟨[33, 1], 33, [9]⟩ := by
+  refine ⟨fun R => by simp [decHdr, decVarint, decVarintTail], Or.inr (by simp [skippable])⟩
+
+/-! ## Part E — the same header over the three protocols -/
+
+/-- **cross_protocol_fields.** One response head — a status and a list `fs` of ordinary
+fields (lower-case token names as HTTP/2 and HTTP/3 carry them; not pseudo, connection-
+specific, `te`, `content-length` or `trailer`, which have their own handling) — written the
+HTTP/1.1 way (`name ": " value CRLF` … CRLF, followed by anything) and read by the field-block
+reader, delivered as an HTTP/2 HEADERS field list to `handleResponse`, and as an HTTP/3 field
+list to `parseHeaders`/`updateResponseFromHeaders`: the caller's header is the same in all
+three — every field under its canonical name, with its value, in the origin's order — and
+HTTP/2 and HTTP/3 report the origin's status. (Body and trailers: the per-protocol exactness
+theorems above all conclude "= the origin's bytes / fields".) -/
+theorem cross_protocol_fields (fs : Fields) (hfs : ∀ kv ∈ fs, PlainField kv ∧ ValueOK kv.2)
+    (sv : Bytes) (code : Nat) (hne : sv ≠ []) (hsv : natOfDigits sv = some code)
+    (hval : validFieldValue sv = true) (R : Bytes) :
+    let view := fs.map canonKV
+    parseFieldBlock ((blockWire (fs.map toWField) ++ R).length + 1) (blockWire (fs.map toWField) ++ R) =
+        some (view, (blockWire (fs.map toWField)).length) ∧
+    h2StatusValue ((kStatus, sv) :: fs) = some sv ∧ h2Fields ((kStatus, sv) :: fs) = view ∧
+    h3ParseHead ((kStatus, sv) :: fs) =
+      some { status := code, fields := view, contentLength := none, trailerKeys := [] } := by
+  have hplain : ∀ kv ∈ fs, PlainField kv := fun kv h => (hfs kv h).1
+  have hw : ∀ f ∈ fs.map toWField, f.OK := by
+    intro f hf
+    simp only [List.mem_map] at hf
+    obtain ⟨kv, hkv, rfl⟩ := hf
+    exact toWField_ok kv (hfs kv hkv).1 (hfs kv hkv).2
+  obtain ⟨h2a, h2b, _⟩ := h2_fields_plain fs hplain sv
+  refine ⟨?_, h2a, h2b, h3_head_plain fs hplain sv code hne hsv hval⟩
+  have := field_block_roundtrip (fs.map toWField) hw R
+  rw [fieldsOf_toWField] at this
+  exact this
+
+end Req.Props.C02
